@@ -21,6 +21,7 @@ import (
 	"encoding/pem"
 	"errors"
 	"fmt"
+	"io"
 	"mime"
 	"os"
 	"path/filepath"
@@ -73,6 +74,21 @@ type Blob struct {
 	SHA512 string `json:"sha512"`
 }
 
+// ReadStep: `times` Read calls delivering `n` bytes each with a nil error; if `eof`, the last of
+// them delivers its bytes together with io.EOF.
+type ReadStep struct {
+	N     int  `json:"n"`
+	Times int  `json:"times"`
+	EOF   bool `json:"eof"`
+}
+
+// Reader is the behaviour of the io.Reader a blob is handed over with.
+type Reader struct {
+	Direct bool       `json:"direct"`
+	Steps  []ReadStep `json:"steps"`
+	label  string
+}
+
 type Input struct {
 	Kind             string   `json:"kind"`
 	KeySpec          string   `json:"keySpec"`
@@ -80,6 +96,8 @@ type Input struct {
 	Signer           string   `json:"signer"`
 	Desc             FullDesc `json:"desc"`
 	Blob             Blob     `json:"blob"`
+	SignReader       Reader   `json:"signReader"`
+	VerifyReader     Reader   `json:"verifyReader"`
 	ContentMediaType string   `json:"contentMediaType"`
 	MediaTypeValid   bool     `json:"mediaTypeValid"`
 	Metadata         []KV     `json:"metadata"`
@@ -338,6 +356,155 @@ func (p *signPlugin) VerifySignature(ctx context.Context, req *pluginfw.VerifySi
 	return nil, errors.New("not a verification plugin")
 }
 
+// ---- readers with scripted behaviour -----------------------------------------------------------
+
+// scriptReader delivers data exactly as the script says; after the script (or after the read
+// that reported io.EOF) it answers (0, io.EOF).
+type scriptReader struct {
+	data  []byte
+	steps []ReadStep
+	i     int // current step
+	done  int // repetitions of the current step already delivered
+	carry int // rest of a scripted read the consumer's buffer was too small for
+}
+
+func (r *scriptReader) Read(p []byte) (int, error) {
+	if len(p) == 0 {
+		return 0, nil
+	}
+	for r.i < len(r.steps) && r.steps[r.i].Times == 0 {
+		r.i++
+	}
+	if r.i >= len(r.steps) {
+		return 0, io.EOF
+	}
+	st := r.steps[r.i]
+	n := st.N
+	if r.carry > 0 {
+		n = r.carry
+	}
+	if n > len(r.data) {
+		panic("c07: reader script delivers more than the blob")
+	}
+	if n > len(p) {
+		copy(p, r.data[:len(p)])
+		r.data = r.data[len(p):]
+		r.carry = n - len(p)
+		return len(p), nil
+	}
+	copy(p, r.data[:n])
+	r.data = r.data[n:]
+	r.carry = 0
+	r.done++
+	if r.done == st.Times {
+		r.i++
+		r.done = 0
+		if st.EOF {
+			r.i = len(r.steps)
+			return n, io.EOF
+		}
+	}
+	return n, nil
+}
+
+// represented is the length of the byte sequence a script stands for (model: `represented`).
+func represented(steps []ReadStep) int {
+	total := 0
+	for _, st := range steps {
+		if st.Times == 0 {
+			continue
+		}
+		total += st.N * st.Times
+		if st.EOF {
+			break
+		}
+	}
+	return total
+}
+
+// reader concretises a reader behaviour over the content.
+func (rd Reader) reader(content []byte) io.Reader {
+	if represented(rd.Steps) != len(content) {
+		panic(fmt.Sprintf("c07: reader script stands for %d bytes, the blob has %d", represented(rd.Steps), len(content)))
+	}
+	if rd.Direct {
+		return bytes.NewReader(content)
+	}
+	return &scriptReader{data: content, steps: rd.Steps}
+}
+
+const copyChunk = 32 * 1024 // io.Copy's buffer; scripted reads never exceed it
+
+var readerKinds = []string{"direct", "chunks", "oneByte", "dataEOF", "dataEOFsmall", "shortReads", "zeroReads", "mixed"}
+
+// genReader draws a reader behaviour for a blob of the given size.
+func genReader(c *common.Ctx, size int, kind string) Reader {
+	rd := Reader{Steps: []ReadStep{}, label: kind}
+	if kind == "direct" {
+		rd.Direct = true
+		if size > 0 {
+			rd.Steps = append(rd.Steps, ReadStep{size, 1, false})
+		}
+		return rd
+	}
+	if kind == "oneByte" && size > 256<<10 {
+		kind = "chunks"
+	}
+	zero := func(p float64) {
+		if kind == "zeroReads" || kind == "mixed" {
+			if chance(c, p) {
+				rd.Steps = append(rd.Steps, ReadStep{0, 1 + c.Rand.Intn(3), false})
+			}
+		}
+	}
+	chunkOf := func() int {
+		switch kind {
+		case "chunks", "dataEOF", "zeroReads":
+			return copyChunk
+		case "oneByte":
+			return 1
+		case "dataEOFsmall":
+			return pick(c, []int{1, 2, 7, 512, 4096})
+		}
+		return pick(c, []int{1, 2, 3, 7, 100, 1000, 4095, 4096, 4097, copyChunk - 1, copyChunk})
+	}
+	remaining := size
+	zero(0.6)
+	fixed := chunkOf()
+	for remaining > 0 {
+		ch := fixed
+		if kind == "shortReads" || kind == "mixed" {
+			ch = chunkOf()
+		}
+		if len(rd.Steps) > 40 {
+			ch = copyChunk // keep the script short: the rest in full chunks
+		}
+		if ch > remaining {
+			ch = remaining
+		}
+		times := remaining / ch
+		if (kind == "shortReads" || kind == "mixed") && len(rd.Steps) <= 40 && times > 1 {
+			times = 1 + c.Rand.Intn(min(times, 5))
+		}
+		rd.Steps = append(rd.Steps, ReadStep{ch, times, false})
+		remaining -= ch * times
+		if remaining > 0 {
+			zero(0.3)
+		}
+	}
+	// how the end is reported
+	withData := kind == "dataEOF" || kind == "dataEOFsmall" || (kind == "mixed" || kind == "shortReads" || kind == "zeroReads") && chance(c, 0.5)
+	switch {
+	case withData && len(rd.Steps) > 0 && rd.Steps[len(rd.Steps)-1].N > 0:
+		rd.Steps[len(rd.Steps)-1].EOF = true // the last bytes arrive together with io.EOF
+	case withData:
+		rd.Steps = append(rd.Steps, ReadStep{0, 1, true}) // empty blob: (0, io.EOF) at once
+	default:
+		zero(0.5) // zero-length reads with a nil error before the final (0, io.EOF)
+	}
+	return rd
+}
+
 // ---- canonicalisation ------------------------------------------------------------------------
 
 func sortedKV(m map[string]string) []KV {
@@ -585,7 +752,7 @@ func (w *world) sign(in Input, content []byte) *signedCase {
 	var sig []byte
 	sigMT := formatOf[in.Format]
 	if in.Kind == "blob" {
-		b, _, err := notation.SignBlob(ctx, s, bytes.NewReader(content), notation.SignBlobOptions{
+		b, _, err := notation.SignBlob(ctx, s, in.SignReader.reader(content), notation.SignBlobOptions{
 			SignerSignOptions: sso, ContentMediaType: in.ContentMediaType, UserMetadata: kvMap(in.Metadata)})
 		if err != nil {
 			return sc
@@ -668,7 +835,7 @@ func (w *world) verify(sc *signedCase) Obs {
 	var returned ocispec.Descriptor
 	if in.Kind == "blob" {
 		stated := map[string]string{"same": in.ContentMediaType, "unstated": "", "other": "application/x-c07-other"}[in.VerifyMediaType]
-		d, vo, err := notation.VerifyBlob(ctx, v, bytes.NewReader(sc.content), sc.sig, notation.VerifyBlobOptions{
+		d, vo, err := notation.VerifyBlob(ctx, v, in.VerifyReader.reader(sc.content), sc.sig, notation.VerifyBlobOptions{
 			BlobVerifierVerifyOptions: notation.BlobVerifierVerifyOptions{SignatureMediaType: formatOf[in.Format], UserMetadata: wantedMetadata(in)},
 			ContentMediaType:          stated})
 		if err != nil {
@@ -812,6 +979,9 @@ func (w *world) genArtifact(c *common.Ctx) (FullDesc, []byte) {
 
 var blobSizes = []int{0, 1, 1 << 10, 1 << 20, 4 << 20}
 
+// sizes around the boundaries of a 32 KiB copy buffer
+var boundarySizes = []int{copyChunk - 1, copyChunk, copyChunk + 1, 2*copyChunk - 1, 2 * copyChunk, 2*copyChunk + 1, 3 * copyChunk, 4*copyChunk + 1, 4096, 4097}
+
 func (w *world) genBlob(c *common.Ctx) *blobData {
 	r := c.Rand.Float64()
 	switch {
@@ -825,6 +995,8 @@ func (w *world) genBlob(c *common.Ctx) *blobData {
 		return w.blob(1 << 20)
 	case r < 0.57:
 		return w.blob(4 << 20)
+	case r < 0.77:
+		return w.blob(pick(c, boundarySizes))
 	}
 	return w.blob(2 + c.Rand.Intn(5000))
 }
@@ -833,7 +1005,8 @@ func zeroDesc() FullDesc { return FullDesc{Annotations: []KV{}, URLs: []string{}
 
 // genCase draws one abstract case and the content it is about.
 func (w *world) genCase(c *common.Ctx) (Input, []byte) {
-	in := Input{Desc: zeroDesc(), Metadata: []KV{}, VerifyMediaType: "same", VerifyMetadata: "nothing"}
+	in := Input{Desc: zeroDesc(), Metadata: []KV{}, VerifyMediaType: "same", VerifyMetadata: "nothing",
+		SignReader: Reader{Direct: true, Steps: []ReadStep{}}, VerifyReader: Reader{Direct: true, Steps: []ReadStep{}}}
 	in.Kind = pick(c, []string{"oci", "blob"})
 	in.KeySpec = genKeySpec(c)
 	in.Format = pick(c, []string{"jws", "cose"})
@@ -849,6 +1022,8 @@ func (w *world) genCase(c *common.Ctx) (Input, []byte) {
 	} else {
 		bd := w.genBlob(c)
 		in.Blob, content = bd.abs, bd.content
+		in.SignReader = genReader(c, len(content), pick(c, readerKinds))
+		in.VerifyReader = genReader(c, len(content), pick(c, readerKinds))
 		in.ContentMediaType = pick(c, blobMediaTypes)
 		if chance(c, 0.08) {
 			in.ContentMediaType = pick(c, badBlobMediaTypes)
@@ -933,6 +1108,13 @@ func count(c *common.Ctx, in Input, o Obs) {
 		}
 		c.Count("blobSize=" + sz)
 		c.Count("verifyMediaType=" + in.VerifyMediaType)
+		c.Count("signReader=" + in.SignReader.label)
+		c.Count("verifyReader=" + in.VerifyReader.label)
+		for _, b := range boundarySizes {
+			if int64(b) == in.Blob.Size {
+				c.Count("blobSize=chunkBoundary")
+			}
+		}
 	} else {
 		c.Count(fmt.Sprintf("descExtras=%v", len(in.Desc.URLs) > 0 || in.Desc.Platform || in.Desc.Data != "" || in.Desc.ArtifactType != ""))
 	}
@@ -1021,6 +1203,37 @@ func Run(c *common.Ctx) error {
 		}
 	}
 
+	// (2b) twins: two consecutive round trips on the SAME signer object that differ only in the
+	// content (same shape: media type, size, metadata keys) - anything remembered from the first
+	// call that is not re-derived from the second call's content shows here
+	for _, s := range signerKinds {
+		for _, kind := range []string{"oci", "blob"} {
+			in, _ := w.genCase(c)
+			for in.Kind != kind {
+				in, _ = w.genCase(c)
+			}
+			in.Signer = s
+			setKeyVia(&in, pick(c, []string{"rotated", "pluginConfig"}))
+			in.Metadata = genKV(c, metadataKeys[:3], c.Rand.Intn(2))
+			in.VerifyMediaType, in.VerifyMetadata = "same", "all"
+			in.DurationNs = int64(pick(c, legalDurations))
+			size := pick(c, []int{64, 1000, copyChunk + 1})
+			for twin := 0; twin < 2; twin++ {
+				content := w.randBytes(size)
+				abs := digests(content)
+				if kind == "oci" {
+					in.Desc = FullDesc{MediaType: "application/vnd.c07.custom.v1+json", Digest: abs.SHA256, Size: abs.Size, Annotations: []KV{}, URLs: []string{}}
+				} else {
+					in.Blob = abs
+					in.ContentMediaType, in.MediaTypeValid = "application/octet-stream", true
+					in.SignReader = genReader(c, size, pick(c, readerKinds))
+					in.VerifyReader = genReader(c, size, pick(c, readerKinds))
+				}
+				emit(w.roundTrip(in, content))
+			}
+		}
+	}
+
 	// (3) random cases
 	for n := 0; n < random; n++ {
 		in, content := w.genCase(c)
@@ -1041,6 +1254,8 @@ func Run(c *common.Ctx) error {
 		"full matrix 6 key specs x 2 formats x 4 signers x {oci, blob} plus random cases (legal and illegal metadata / durations / media types, " +
 		"blob sizes 0 B..4 MiB, verification stating the same / no / another media type and none / all / unsigned metadata) plus verification after a short expiry; " +
 		"lagSec is the planned class of the verification delay (0 = before the expiry, ensured by clock alignment and re-tried otherwise). " +
+		"Readers: every blob is handed to SignBlob and, independently, to VerifyBlob through a reader with scripted behaviour (the in-memory reader itself, full 32 KiB chunks, one byte at a time, " +
+		"the last bytes together with io.EOF, short reads of odd sizes, zero-length reads with a nil error at the start / between / before the end, mixtures), blob sizes include 32 KiB and 64 KiB +/- 1 and multiples. " +
 		"History: signer and verifier objects are SHARED by the whole run - one GenericSigner per key and constructor, ONE PluginSigner per plugin kind whose key (and key spec) " +
 		"behind the same key id changes between calls (rotation, or the per-call PluginConfig selecting a key version), SignBlob / SignOCI and JWS / COSE interleaved on the same object, " +
 		"ONE verifier per identity style (wildcard; the six exact subjects); input.history records position and previous call of the signer object.")
